@@ -689,10 +689,14 @@ class Interp:
                 elif isinstance(op, (ast.In, ast.NotIn)):
                     right = self._eval(rnode, st)
                     tp = right.single()
-                    if not isinstance(tp, Tup):
+                    if isinstance(tp, tuple) and tp and tp[0] == 'dict':
+                        items = [k for k, _ in tp[2]]            # `key in {k: v, ...}`
+                    elif isinstance(tp, Tup):
+                        items = tp.items
+                    else:
                         raise Unsupported('membership test in a non-tuple value')
                     r = 0
-                    for el in tp.items:
+                    for el in items:
                         r = B.OR(r, self.compare(ast.Eq(), left, el, st.cond))
                     if isinstance(op, ast.NotIn):
                         r = B.NOT(r)
@@ -732,6 +736,23 @@ class Interp:
                 else:
                     st.env[name] = saved
                 return V(Tup(out))
+            if isinstance(it, tuple) and it and it[0] in ('symrange', 'symlist') and \
+                    not any(isinstance(x, ast.Call) and isinstance(x.func, ast.Attribute) for x in ast.walk(e.elt)):
+                # [f(k) for k in range(n)] with n symbolic and f pure: the elements up to the largest n, length n
+                sym = it[2]
+                hi = (1 << len(sym.bits)) - 1
+                src = [V(self.const(i)) for i in range(hi)] if it[0] == 'symrange' else list(it[3])
+                out = []
+                name = e.generators[0].target.id
+                saved = st.env.get(name)
+                for item in src:
+                    st.env[name] = item
+                    out.append(self._eval(e.elt, st))
+                if saved is None:
+                    st.env.pop(name, None)
+                else:
+                    st.env[name] = saved
+                return V(('symlist', id(sym), sym, tuple(out)))
             raise Unsupported('comprehension over a non-constant iterable')
         raise Unsupported('expression %s' % type(e).__name__)
 
@@ -977,6 +998,8 @@ class Interp:
                 if attr == 'stop':
                     return p[4]
                 raise Unsupported('slice attribute %s' % attr)
+        if isinstance(p, tuple) and p and p[0] == 'dict' and attr == 'get':
+            return ('bound_builtin', ('dictget', p[1]), attr, p)
         if isinstance(p, Tup) or isinstance(p, Int) or isinstance(p, UF):
             return ('bound_builtin', self.value_key(V(p)) if not isinstance(p, UF) else self.uf_key(p), attr, p)
         raise Unsupported('attribute %s of %r' % (attr, p))
@@ -1235,6 +1258,54 @@ class Interp:
                 lt = self.i_lt(x, y)
                 return self.i_ite(lt, x, y) if name == 'min' else self.i_ite(lt, y, x)
             return self.lift2(args[0], args[1], g, st.cond)
+        if name == 'enumerate' and len(args) == 1:
+            p = args[0].single()
+            if isinstance(p, Tup):
+                return V(Tup([V(Tup([V(self.const(i)), x])) for i, x in enumerate(p.items)]))
+            if isinstance(p, tuple) and p and p[0] == 'symlist':
+                return V(('symlist', p[1], p[2], tuple(V(Tup([V(self.const(i)), x])) for i, x in enumerate(p[3]))))
+            if isinstance(p, tuple) and p and p[0] == 'symrange':
+                hi = (1 << len(p[2].bits)) - 1
+                return V(('symlist', p[1], p[2], tuple(V(Tup([V(self.const(i)), V(self.const(i))])) for i in range(hi))))
+            raise Unsupported('enumerate of a non-constant iterable')
+        if name == 'zip' and args:
+            ps = [a.single() for a in args]
+            if all(isinstance(q, Tup) for q in ps):
+                return V(Tup([V(Tup(list(x))) for x in zip(*[q.items for q in ps])]))
+            raise Unsupported('zip of non-constant iterables')
+        if name in ('tuple', 'list') and len(args) == 1:
+            p = args[0].single()
+            if isinstance(p, Tup) or (isinstance(p, tuple) and p and p[0] == 'symlist'):
+                return args[0]
+            raise Unsupported('%s of a non-constant iterable' % name)
+        if name == 'reversed' and len(args) == 1 and isinstance(args[0].single(), Tup):
+            return V(Tup(list(reversed(args[0].single().items))))
+        if name in ('sum', 'any', 'all') and len(args) == 1:
+            p = args[0].single()
+            if isinstance(p, Tup):
+                items, live = list(p.items), None
+            elif isinstance(p, tuple) and p and p[0] == 'symlist':
+                items = list(p[3])
+                live = [self.i_lt(self.const(i), p[2]) for i in range(len(items))]       # element i exists iff i < n
+            else:
+                raise Unsupported('%s of a non-constant iterable' % name)
+            if name == 'sum':
+                acc = V(self.const(0))
+                self.op_cond = st.cond
+                for i, x in enumerate(items):
+                    nxt = self.lift2(acc, x, lambda a, b: self.binop(ast.Add(), a, b), st.cond)
+                    acc = nxt if live is None else self.v_ite(live[i], nxt, acc)
+                return acc
+            bits = []
+            for i, x in enumerate(items):
+                t = self.truth(x, st.cond)
+                if live is not None:
+                    t = B.OR(B.NOT(live[i]), t) if name == 'all' else B.AND(live[i], t)
+                bits.append(t)
+            r = 1 if name == 'all' else 0
+            for t in bits:
+                r = B.AND(r, t) if name == 'all' else B.OR(r, t)
+            return V(Int([r]))
         if name == 'bin':
             return V(UF('bin', args))
         if name == 'slice' and len(args) == 2:
@@ -1258,6 +1329,19 @@ class Interp:
                     continue
                 res = self.const(i + 1) if b == 1 else self.i_ite(b, self.const(i + 1), res)
             return V(res)
+        if attr == 'get' and isinstance(recv, tuple) and recv and recv[0] == 'dict' and 1 <= len(args) <= 2:
+            # {k: v, ...}.get(key, default): the first matching entry, else the default
+            B = self.B
+            out, none = [], 1
+            for k, v in recv[2]:
+                c = B.AND(none, self.compare(ast.Eq(), args[0], k, st.cond))
+                none = B.AND(none, B.NOT(c))
+                for cc, pp in v.cases:
+                    out.append((B.AND(c, cc), pp))
+            dflt = args[1] if len(args) == 2 else V(NONE)
+            for cc, pp in dflt.cases:
+                out.append((B.AND(none, cc), pp))
+            return Value(self.coalesce(out))
         raise Unsupported('method %s on a value' % attr)
 
     def call_func(self, fi, recv, args, kwargs, e, st):
@@ -1489,6 +1573,20 @@ class Interp:
                 rest = st.copy(B.AND(st.cond, B.NOT(go)))
                 st = self.join(body_st, rest, st)
             return st
+        if isinstance(p, tuple) and p and p[0] == 'symlist':
+            B = self.B
+            sym = p[2]
+            for i, item in enumerate(p[3]):
+                go = self.i_lt(self.const(i), sym)
+                cin = B.AND(st.cond, go)
+                if cin == 0:
+                    continue
+                body_st = st.copy(cin)
+                self.assign(s.target, item, body_st, s)
+                body_st = self.block(s.body, body_st, rets)
+                rest = st.copy(B.AND(st.cond, B.NOT(go)))
+                st = self.join(body_st, rest, st)
+            return st
         raise AnalysisError('loop outside the idiom in %s: `%s`' % (
             self.cur_func.qualname if self.cur_func else '?', ast.unparse(s.iter)[:60]))
 
@@ -1621,7 +1719,7 @@ class _ModuleCtx:
 
 
 BUILTINS = {'print', 'int', 'bool', 'len', 'range', 'isinstance', 'hasattr', 'abs', 'min', 'max', 'bin', 'slice',
-            'NotImplementedError', 'super', 'repr', 'str'}
+            'NotImplementedError', 'super', 'repr', 'str', 'enumerate', 'zip', 'sum', 'any', 'all', 'tuple', 'list', 'reversed'}
 
 
 # ---------------------------------------------------------------------------
